@@ -146,8 +146,7 @@ def applied_count_local(fn):
     return None, None
 
 
-def r2_seq(ck, seq):
-    rule = "C05-R2"
+def r2_seq(ck, seq, rule="C05-R2"):
     rej = calls_named(seq, "rollback_and_save_rej_files")
     apply_one = calls_named(seq, "apply_one_file_patch")
     save = calls_named(seq, "ModifiedFiles::<'arena, 'config>::save")
